@@ -110,7 +110,11 @@ func init() {
 		ID: "C07",
 		Shards: func(th bool) []string {
 			s := []string{"matrix"}
-			for k := 0; k <= 3; k++ {
+			maxK := 3
+			if th {
+				maxK = 4
+			}
+			for k := 0; k <= maxK; k++ {
 				for _, e := range []string{"else", "noelse"} {
 					for _, style := range []string{"text", "return"} {
 						s = append(s, fmt.Sprintf("chain:%d:%s:%s", k, e, style))
